@@ -40,12 +40,19 @@ func New(prop, tier string) *Evidence {
 	return &Evidence{PropertyID: prop, Tier: tier, Seed: Seed(), Level: "model_checking", Coverage: map[string]interface{}{}}
 }
 
+// Write stores the evidence. With VERIF_PART set, the file is a part (evidence/parts/<id>.<part>.json)
+// that cmd/evmerge later folds into evidence/<id>.json.
 func (e *Evidence) Write(start time.Time) {
 	e.WallS = time.Since(start).Seconds()
 	dir := filepath.Join(Root(), "evidence")
+	name := e.PropertyID + ".json"
+	if part := os.Getenv("VERIF_PART"); part != "" {
+		dir = filepath.Join(dir, "parts")
+		name = e.PropertyID + "." + part + ".json"
+	}
 	os.MkdirAll(dir, 0755)
 	b, _ := json.MarshalIndent(e, "", " ")
-	if err := os.WriteFile(filepath.Join(dir, e.PropertyID+".json"), b, 0644); err != nil {
+	if err := os.WriteFile(filepath.Join(dir, name), b, 0644); err != nil {
 		fmt.Fprintln(os.Stderr, "cannot write evidence:", err)
 		os.Exit(2)
 	}
